@@ -351,3 +351,515 @@ def unused_program(draw: Callable) -> tuple[str, str]:
         stms.append(o)
     stms = t.context(["p", "q", "r"]) + stms
     return "\n".join(stms), "unused:" + "+".join(sorted(set(names)) or ["plain"])
+
+
+# ---------------------------------------------------------------- shared: defining a "data" predicate
+def define(t: T, atom: str, cand: str, allow_input: bool = True) -> list[str]:
+    """define `atom` (e.g. 'pl(P,X,Y)') from the candidate atom `cand` (an input predicate with the same variables):
+    input (no rule) / choice / derived / derived through negation (non-static) / disjunction"""
+    k = t.i(0, 9)
+    if allow_input and k < 3:
+        return []
+    if k < 6:
+        return [f"{{ {atom} : {cand} }}."]
+    if k < 7:
+        return [f"{atom} :- {cand}."]
+    if k < 8:
+        n = "n" + atom
+        return [f"{atom} :- {cand}, not {n}.", f"{n} :- {cand}, not {atom}."]
+    if k < 9:
+        return [f"{atom} ; n{atom} :- {cand}."]
+    return [f"{{ {atom} }} :- {cand}."]
+
+
+# ---------------------------------------------------------------- symmetry (C11)
+def symmetry_program(draw: Callable) -> tuple[str, str]:
+    """k atoms of one predicate joined under pairwise != / < / > / not ="""
+    t = T(draw)
+    ar = t.one([2, 3, 3, 4])
+    vars_ = ["P", "X", "Y", "V"][:ar]
+    base = f"pl({','.join(vars_)})"
+    stms = define(t, base, f"cand({','.join(vars_)})")
+    names = ["sym"]
+    k = t.one([2, 2, 2, 3, 3, 4])
+    copies = []
+    for i in range(1, k + 1):
+        args = []
+        for pos, v in enumerate(vars_):
+            if pos == 0:
+                args.append(f"{v}{i}")
+            else:
+                how = t.i(0, 9)
+                args.append(v if how < 7 else f"{v}{i}")
+        copies.append(args)
+    lits = [f"pl({','.join(a)})" for a in copies]
+    cmps = []
+    uneq = t.one(["!=", "!=", "!=", "<", ">", "noteq"])
+    for i in range(k):
+        for j in range(i + 1, k):
+            a, b = copies[i][0], copies[j][0]
+            if t.p(12):
+                continue  # drop one inequality: must then block (or weaken) the rewrite
+            cmps.append(f"not {a} = {b}" if uneq == "noteq" else f"{a} {uneq} {b}")
+    # second unequal / tied position
+    for pos in range(1, ar):
+        distinct = sorted({c[pos] for c in copies})
+        if len(distinct) > 1:
+            how = t.i(0, 9)
+            if how < 4:
+                cmps.append(f"{distinct[0]} != {distinct[1]}")
+            elif how < 7:
+                cmps.append(f"{distinct[0]} = {distinct[1]}")
+            elif how < 8:
+                cmps.append(f"not {distinct[0]} != {distinct[1]}")
+    extra = []
+    for _ in range(t.i(0, 2)):
+        extra.append(t.one(["node(X)", f"q({copies[0][0]})", f"not q({copies[0][0]})", f"q({copies[-1][0]})", "node(X), X > 1", f"{copies[0][0]} != X", f"w({copies[0][0]},{copies[1][0]})"]))
+    body = lits + cmps + extra
+    if t.p(30):
+        body = body[1:] + body[:1]
+    b = ", ".join(body)
+    shown_vars = ["X", copies[0][0], copies[1][0], "Y" if ar > 2 else "X"]
+    head_var = t.one(shown_vars[: 2 + t.i(0, 2)])
+    if head_var not in b:
+        head_var = copies[0][0]
+    kind = t.i(0, 11)
+    if kind < 4:
+        stms.append(f"f({head_var if t.p(40) else 'X' if 'X' in b.replace('X1','').replace('X2','').replace('X3','').replace('X4','') else head_var}) :- {b}.")
+    elif kind < 6:
+        stms.append(f":- {b}.")
+    elif kind < 7:
+        stms.append(f":~ {b}. [{t.one(['1', head_var])}@1{t.one(['', ',' + head_var])}]")
+        names.append("objective")
+    elif kind < 8:
+        stms.append(f"{{ g({copies[0][0]},{copies[1][0]}) }} :- {b}.")
+    elif kind < 10:
+        w = "X" if "X" in copies[0] else copies[0][1] if ar > 1 else copies[0][0]
+        stms.append(f":- #count{{ {w} : {', '.join(lits + cmps)} }} >= {t.i(1, 2)}.")
+        names.append("inaggregate")
+    elif kind < 11:
+        w = "X" if "X" in copies[0] else copies[0][1] if ar > 1 else copies[0][0]
+        stms.append(f"f(N) :- N = #sum{{ 1,{w} : {', '.join(lits + cmps)} }}.")
+        names.append("inaggregate")
+    else:
+        stms.append(f"f :- node(Z), pl2(Z) : {', '.join(lits + cmps)}.")
+    if t.p(25):
+        stms.append(t.one([":- f(X), node(X).", "#show f/1.", "node(1..2).", ":- 2 { f(X) }."]))
+    return "\n".join(stms), "+".join(sorted(set(names))) + f":k{k}"
+
+
+# ---------------------------------------------------------------- minmax_chains (C12)
+def minmax_chains_program(draw: Callable) -> tuple[str, str]:
+    """#min/#max assignments and bounds over choice-defined / derived / input predicates; results consumed by sums and objectives"""
+    t = T(draw)
+    names = []
+    stms = define(t, "sk(P,I,V)", "csk(P,I,V)")
+    if t.p(60):
+        stms += define(t, "pers(P)", "cpers(P)")
+    nrules = t.one([1, 1, 2])
+    results = []
+    lines = []
+    for r in range(nrules):
+        fn = t.one(["#min", "#max"])
+        el = t.one(["V,I : sk(P,I,V)", "V : sk(P,_,V)", "V,I : sk(P,I,V), V > 0", "V : sk(P,I,V), pers(P)", "V+1,I : sk(P,I,V)", "V,I : sk(P,I,V), not bad(I)", "V : sk(_,_,V)"])
+        if t.p(12):
+            el += "; " + t.one(["0", "W,x : ot(P,W)", "V,I : sk2(P,I,V)"])
+            names.append("multielem")
+        agg = f"{fn}{{ {el} }}"
+        grouped = "P" in el.split(":")[1] or "P" in el
+        anchor = t.one(["pers(P)", "pers(P)", "sk(P,_,_)", ""]) if grouped else ""
+        kind = t.i(0, 9)
+        head = f"r{r}(P,X)" if grouped and anchor else f"r{r}(X)"
+        if kind < 5:
+            body = [f"X = {agg}"] + ([anchor] if anchor else [])
+            if grouped and not anchor:
+                head = f"r{r}(X)"
+                body = [f"X = {fn}{{ {el.replace('(P,', '(_,')} }}"] if "pers(P)" not in el else [f"X = {agg}", "pers(P)"]
+            lines.append(f"{head} :- {', '.join(body)}.")
+            results.append((r, head, fn))
+            names.append("assign")
+        else:
+            op = t.op()
+            bound = t.one([t.num(0, 4), t.num(0, 4), "B"])
+            neg = t.neg(30)
+            side = t.p(50)
+            lit = f"{neg}{bound} {op} {agg}" if side else f"{neg}{agg} {op} {bound}"
+            if t.p(15):
+                lit = f"{neg}{t.num(0, 2)} {t.one(['<', '<='])} {agg} {t.one(['<', '<=', '!='])} {t.num(2, 5)}"
+            body = [lit] + ([anchor] if anchor else ["pers(P)"] if "P" in agg else []) + (["lim(B)"] if "B" in lit else [])
+            h = t.one(["ok(P)" if "pers(P)" in body or "sk(P,_,_)" in body else "ok", ""])
+            lines.append(f"{h} :- {', '.join(body)}.")
+            names.append("bound")
+    if len(lines) == 2 and t.p(35):
+        stms.append(lines[0] + " " + lines[1])
+        names.append("sameline")
+    else:
+        stms.extend(lines)
+    for r, head, fn in results:
+        if t.p(60):
+            grouped = "P" in head
+            v = head.replace("X", "W")
+            sign = t.one(["", "", "-"])
+            c = t.i(0, 6)
+            tup = ",P" if grouped else ""
+            if c == 0:
+                stms.append(f"tot(S) :- S = #sum{{ {sign}W{tup} : {v} }}.")
+            elif c == 1:
+                stms.append(f"#minimize{{ {sign}W{tup} : {v} }}.")
+            elif c == 2:
+                stms.append(f"#maximize{{ {sign}W{tup} : {v} }}.")
+            elif c == 3:
+                stms.append(f":~ {v}. [{sign}W@1{tup}]")
+            elif c == 4:
+                stms.append(f"tot(S) :- S = #sum{{ W{tup} : {v}; 1,extra : pers(_) }}.")
+            elif c == 5:
+                stms.append(f":- {v}, W {t.op()} {t.num(0, 4)}.")
+            else:
+                stms.append(f"tot(S) :- S = #sum+{{ W{tup} : {v} }}.")
+            names.append("consumed")
+    return "\n".join(stms), "+".join(sorted(set(names)))
+
+
+# ---------------------------------------------------------------- sum_chains (C13)
+def sum_chains_program(draw: Callable) -> tuple[str, str]:
+    """at-most-one choice predicates used as weights in #sum aggregates and objectives"""
+    t = T(draw)
+    names = []
+    cond = t.one(["psh(D,L)", "psh(D,L)", "psh(_,L)", "psh(D,L), L > 0", "lv(L)"])
+    el = f"sh(D,L) : {cond}"
+    k = t.i(0, 13)
+    body = t.one(["day(D)", "day(D)", "day(D), not off(D)"])
+    if k == 0:
+        c = f"{{ {el} }} 1 :- {body}."
+    elif k == 1:
+        c = f"{{ {el} }} <= 1 :- {body}."
+    elif k == 2:
+        c = f"1 >= {{ {el} }} :- {body}."
+    elif k == 3:
+        c = f"{{ {el} }} < 2 :- {body}."
+    elif k == 4:
+        c = f"{{ {el} }} = 1 :- {body}."
+    elif k == 5:
+        c = f"1 {{ {el} }} 1 :- {body}."
+    elif k == 6:
+        c = f"#count{{ L : {el} }} <= 1 :- {body}."
+    elif k == 7:
+        c = f"#sum{{ 1,L : {el} }} <= 1 :- {body}."
+    elif k == 8:
+        c = f"{{ {el} }} 2 :- {body}."  # not at most one: must block
+        names.append("notamo")
+    elif k == 9:
+        c = f"{{ {el} }} :- {body}. :- day(D), 2 {{ sh(D,L) }}."
+        names.append("constraint_amo")
+    elif k == 10:
+        c = f"#sum{{ L,L : {el} }} <= 1 :- {body}."
+        names.append("weighted")
+    elif k == 11:
+        c = f"{{ {el}; sh(D,0) }} 1 :- {body}."
+        names.append("twoelem")
+    elif k == 12:
+        c = f"{{ sh(D,L) : psh(D,L); other(D) }} 1 :- {body}."
+        names.append("twoelem")
+    else:
+        c = f"{{ sh(D,L) }} 1 :- {body}, lv(L)."
+        names.append("globalvar")
+    stms = [c]
+    if t.p(15):
+        stms.append(t.one(["sh(D,L) :- fix(D,L).", "sh(D,1) :- day(D), force(D)."]))
+        names.append("also_derived")
+    for _ in range(t.i(1, 2)):
+        sign = t.one(["", "", "", "-"])
+        grp = t.one(["D", "D", "_"])
+        k2 = t.i(0, 9)
+        if k2 == 0:
+            stms.append(f"a(X) :- X = #sum{{ {sign}L,D : sh(D,L) }}.")
+        elif k2 == 1:
+            stms.append(f"a(D,X) :- X = #sum{{ {sign}L : sh(D,L) }}, day(D).")
+        elif k2 == 2:
+            stms.append(f"a(X) :- X = #sum{{ {sign}L,D : sh(D,L), day(D) }}.")
+        elif k2 == 3:
+            stms.append(f"a(X) :- X = #sum+{{ L,D : sh(D,L) }}.")
+        elif k2 == 4:
+            stms.append(f":~ sh({grp},L). [{sign}L@{t.num(0, 1)}{',' + grp if grp != '_' else ''}]")
+        elif k2 == 5:
+            stms.append(f"#minimize{{ {sign}L,D : sh(D,L) }}.")
+        elif k2 == 6:
+            stms.append(f"#maximize{{ L@1,D : sh(D,L), day(D) }}.")
+        elif k2 == 7:
+            stms.append(f"a(X) :- X = #sum{{ L : sh(_,L) }}.")
+            names.append("anon_group")
+        elif k2 == 8:
+            stms.append(f"a(X) :- X = #sum{{ L,D : sh(D,L); L,D : bonus(D,L) }}.")
+            names.append("sibling")
+        else:
+            stms.append(f":- day(D), #sum{{ L : sh(D,L) }} {t.op()} {t.num(0, 4)}.")
+    if t.p(20):
+        stms.append(":~ bonus(D,L). [L@0,D]")
+        names.append("other_objective")
+    if t.p(20):
+        stms.append(t.one(["psh(D,L) :- day(D), lv(L).", "day(1..2).", "lv(0..2)."]))
+    return "\n".join(stms), "sum:" + "+".join(sorted(set(names)) or ["plain"])
+
+
+# ---------------------------------------------------------------- math (C14)
+def math_program(draw: Callable) -> tuple[str, str]:
+    """comparisons between integer terms and aggregate assignments combined arithmetically"""
+    t = T(draw)
+    names = []
+    stms = []
+    if t.p(20):
+        stms.append(f"#const n = {t.i(0, 3)}.")
+        names.append("const")
+    cterm = lambda: t.one([t.num(0, 4), t.num(0, 4), "n"] if names and "const" in names else [t.num(0, 4)])
+
+    def lin(vs: list[str]) -> str:
+        k = t.i(0, 9)
+        v = t.one(vs)
+        if k < 3:
+            return v
+        if k < 5:
+            return f"{v}{t.one(['+', '-'])}{cterm()}"
+        if k < 6:
+            return f"{t.i(2, 3)}*{v}"
+        if k < 7:
+            return f"{v}+{t.one(vs)}"
+        if k < 8:
+            return f"{v}*{t.one(vs)}"
+        if k < 9:
+            return t.one([f"{v}/{t.i(2, 3)}", f"{v}\\{t.i(2, 3)}", f"|{v}|", f"{v}*{v}"])
+        return cterm()
+
+    for _ in range(t.i(1, 2)):
+        shape = t.i(0, 9)
+        if shape < 4:
+            vs = ["X", "Y"]
+            body = ["q(X,Y)"]
+            if t.p(40):
+                body.append("p(Z)")
+                vs.append("Z")
+            used_head = t.one(["X", "X,Y", "Z" if "Z" in vs else "Y", ""])
+            for _ in range(t.i(1, 3)):
+                k = t.i(0, 9)
+                if k < 6:
+                    body.append(f"{t.neg(12)}{lin(vs)} {t.op()} {lin(vs)}")
+                elif k < 8:
+                    nv = t.one(["A", "B"])
+                    if nv not in vs:
+                        body.append(f"{nv} = {lin(vs)}")
+                        vs.append(nv)
+                else:
+                    body.append(f"{lin(vs)} {t.one(['<', '<='])} {lin(vs)} {t.one(['<', '<=', '!='])} {lin(vs)}")
+            head = f"a({used_head})" if used_head else "a"
+            stms.append(f"{head} :- {', '.join(body)}.")
+            names.append("comparisons")
+        else:
+            aggs = []
+            vs = []
+            body = []
+            grp = t.p(50)
+            if grp:
+                body.append("p(G)")
+            for name in ["X", "Y", "Z"][: t.i(1, 3)]:
+                fn = t.one(["#sum", "#sum", "#count", "#sum+", "#min", "#max"])
+                el = t.one([f"V,I : sk({'G' if grp else 'P'},I,V)", "1,I : it(I)", "W : ot(P,W)" if not grp else "W : ot(G,W)", f"V : sk({'G' if grp else '_'},_,V)", "-V,I : sk(P,I,V)" if not grp else "-V,I : sk(G,I,V)", "2*W,W : ot(_,W)"])
+                if t.p(25):
+                    el += "; " + t.one(["1,c : it(_)", "W,o : ot(_,W)", "3"])
+                body.append(f"{name} = {fn}{{ {el} }}")
+                vs.append(name)
+            rel = t.i(0, 9)
+            if rel < 5:
+                expr = "+".join(vs) if t.p(60) else "-".join(vs)
+                body.append(f"{expr} {t.op()} {cterm()}")
+            elif rel < 7 and len(vs) > 1:
+                body.append(f"{vs[0]} {t.op()} {vs[1]}")
+            elif rel < 8:
+                body.append(f"{t.i(2, 3)}*{vs[0]} {t.op()} {lin(vs)}")
+            elif rel < 9:
+                body.append(f"{vs[0]}*{vs[-1]} {t.op()} {cterm()}")
+            hv = t.one(["", "", vs[0], ",".join(vs)])
+            if grp and t.p(50):
+                hv = "G" + ("," + hv if hv else "")
+            kindh = t.i(0, 9)
+            if kindh < 7:
+                stms.append(f"{'b(' + hv + ')' if hv else 'b'} :- {', '.join(body)}.")
+            elif kindh < 8:
+                stms.append(f":- {', '.join(body)}.")
+            else:
+                stms.append(f":~ {'; '.join(body)}. [{vs[0]}@1{',G' if grp else ''}]")
+            names.append("aggregates")
+        if t.p(15):
+            agg = t.one(["#sum{ V,I : sk(P,I,V) }", "#count{ I : it(I) }", "#sum+{ W : ot(_,W) }"])
+            lit = t.one([f"not {t.num(0, 3)} {t.op()} {agg}", f"not not {agg} {t.op()} {t.num(0, 3)}", f"{t.num(0, 1)} <= {agg} <= {t.num(2, 4)}", f"not {t.num(0, 1)} < {agg} < {t.num(2, 5)}"])
+            stms.append(f"c :- {lit}.")
+            names.append("signed_or_twosided")
+    stms += define(t, "sk(P,I,V)", "csk(P,I,V)")
+    if t.p(40):
+        stms += define(t, "it(I)", "cit(I)")
+    return "\n".join(stms), "math:" + "+".join(sorted(set(names)))
+
+
+# ---------------------------------------------------------------- inline (C15)
+def inline_program(draw: Callable) -> tuple[str, str]:
+    """helper(V..,S) :- body, S = #agg{..} used once"""
+    t = T(draw)
+    names = []
+    fn = t.one(["#sum", "#sum", "#sum+", "#count", "#min", "#max"])
+    el = t.one(["Y : pr(A,Y)", "Y,Z : pr(A,Y), ex(Y,Z)", "Y : pr(A,Y), Y > 0", "1,Y : pr(A,Y)", "Y : pr(_,Y)", "Y,A : pr(A,Y)"])
+    extra = t.one(["", "", ", A > 0", ", not bl(A)", ", g(A,_)"])
+    hargs = t.one(["A,S", "A,S", "S,A", "A,A,S", "A,1,S", "S"])
+    if hargs == "S":
+        hdef = f"hl(S) :- S = {fn}{{ {el.replace('(A,', '(_,').replace(',A :', ' :')} }}."
+    else:
+        hdef = f"hl({hargs}) :- a(A){extra}, S = {fn}{{ {el} }}."
+    stms = [hdef]
+    if t.p(10):
+        stms.append("hl(A,S) :- fixed(A,S)." if hargs == "A,S" else hdef)
+        names.append("two_definitions")
+    use_args = {"A,S": "V,F", "S,A": "F,V", "A,A,S": "V,V,F", "A,1,S": "V,1,F", "S": "F"}[hargs]
+    ufn = t.one([fn, fn, "#sum", "#max", "#count"])
+    k = t.i(0, 11)
+    grouped = hargs != "S"
+    tup = "F,V" if grouped else "F"
+    if k < 4:
+        sib = t.one(["", "", "; B : tst(B,C)", "; B,C : tst(B,C)", "; F,V : oth(V,F)", "; 1"])
+        stms.append(f"foo(X) :- X = {ufn}{{ {tup} : hl({use_args}){sib} }}.")
+        names.append("into_aggregate")
+    elif k < 5:
+        stms.append(f"foo(X) :- X = {ufn}{{ {tup} : hl({use_args}), sel(V) }}." if grouped else f"foo(X) :- X = {ufn}{{ F : hl(F), sel(_) }}.")
+        names.append("into_aggregate")
+    elif k < 7:
+        stms.append(f":~ hl({use_args}). [F@{t.num(0, 1)}{',V' if grouped else ''}]")
+        names.append("into_objective")
+    elif k < 8:
+        stms.append(f"#minimize{{ F{',V' if grouped else ''} : hl({use_args}) }}.")
+        names.append("into_objective")
+    elif k < 9:
+        stms.append(f"foo :- hl({use_args}), F {t.op()} {t.num(0, 3)}.")
+        names.append("into_body")
+    elif k < 10:
+        stms.append(f"foo :- hl({use_args}), N = #count{{ B : tst(B,_) }}, F + N {t.op()} {t.num(0, 4)}.")
+        names.append("into_body_arith")
+    elif k < 11:
+        stms.append(f"foo :- not hl({use_args.replace('V', '_').replace('F', '2')}).")
+        names.append("negative_use")
+    else:
+        stms.append(f"foo(X) :- X = #sum{{ {tup} : hl({use_args}) }}. bar(X) :- X = #max{{ F : hl({use_args}) }}.")
+        names.append("two_uses")
+    if t.p(25):
+        stms.append(t.one([":~ tst(B,C). [C@0,B]", ":~ oth(V,F). [F@0,V]", "#minimize{ 1,V : a(V) }."]))
+        names.append("other_objective")
+    stms += define(t, "pr(A,Y)", "cpr(A,Y)")
+    if t.p(40):
+        stms += define(t, "a(A)", "ca(A)")
+    return "\n".join(stms), "inline:" + "+".join(sorted(set(names)))
+
+
+# ---------------------------------------------------------------- projection (C16)
+def projection_program(draw: Callable) -> tuple[str, str]:
+    """long bodies with variables local to a part"""
+    t = T(draw)
+    pool_pos = ["q(A,B)", "q(A,B,C)", "r(A,D)", "r(B,E)", "p(E)", "p(F)", "e(D,F)", "q(C,D)", "e(A,A)", "p(A)", "r(E,F)", "q(_,B)", "r(A,_)"]
+    # (literal, global variables it needs bound)
+    pool_dep = [
+        ("not s(B,E)", "BE"), ("not p(C)", "C"), ("B < E", "BE"), ("C != D", "CD"), ("E = F", "EF"), ("not not r(A,B)", "AB"), ("D > 1", "D"), ("B + 1 = C", "BC"),
+        ("#sum{ G : e(E,G) } > 1", "E"), ("#count{ G : q(G,B) } {op} 1", "B"), ("s(B,G) : e(E,G)", "BE"), ("not e(F,G) : p(G)", "F"), ("#min{ G : r(G,F) } {op} 2", "F"),
+        ("not s(A,_)", "A"), ("A != F", "AF"), ("not q(B,E)", "BE"),
+    ]
+    names = []
+    stms = []
+    for _ in range(t.i(1, 2)):
+        lits = [t.one(pool_pos) for _ in range(t.i(2, 4))]
+        bound = {c for lit in lits for c in lit if c.isupper()}
+        for _ in range(t.i(1, 3)):
+            cands = [d for d, need in pool_dep if set(need) <= bound]
+            if cands:
+                lits.append(t.one(cands).replace("{op}", t.op()))
+        if t.p(20) and "D" in bound:
+            lits.append("K = #sum{ G : e(D,G) }")
+            bound.add("K")
+        if t.p(40):
+            lits = lits[1:] + lits[:1]
+        hv = [v for v in ["A", "D", "F", "B", "K"] if v in bound and t.p(50)][:2]
+        kind = t.i(0, 9)
+        b = "; ".join(lits)
+        if kind < 5:
+            stms.append(f"h({','.join(hv)}) :- {b}." if hv else f"h :- {b}.")
+        elif kind < 6:
+            stms.append(f":- {b}.")
+        elif kind < 7:
+            stms.append(f"{{ h({','.join(hv)}) }} :- {b}." if hv else f"{{ h }} :- {b}.")
+            names.append("choice")
+        elif kind < 8:
+            stms.append(f"h({','.join(hv)}) ; g :- {b}." if hv else f"h ; g :- {b}.")
+            names.append("disjunction")
+        elif kind < 9:
+            stms.append(f"p({hv[0]}) :- {b}." if hv and hv[0] != "K" else f"h :- {b}.")
+            names.append("recursive")
+        else:
+            stms.append(f":~ {b}. [1@1{',' + hv[0] if hv else ''}]")
+            names.append("objective")
+    if t.p(30):
+        stms += define(t, "q(A,B)", "cq(A,B)", allow_input=False)
+    return "\n".join(stms), "projection:" + "+".join(sorted(set(names)) or ["plain"])
+
+
+# ---------------------------------------------------------------- duplication (C10)
+def duplication_program(draw: Callable) -> tuple[str, str]:
+    """statements sharing a literal subset up to variable renaming"""
+    t = T(draw)
+    names = []
+    core_pool = ["q(X,Y)", "r(Y,Z)", "p(X)", "not s(X)", "X < Y", "Y != Z", "not r(X,X)", "u", "q(X,_)", "e(Z) : r(Y,Z)", "not not p(Y)", "X = Y+1", "q(Y,X)", "r(X,Z)"]
+    core = []
+    for _ in range(t.i(2, 3)):
+        c = t.one(core_pool)
+        if c not in core:
+            core.append(c)
+    if not any(c[0] in "qrp" and "(" in c for c in core):
+        core.insert(0, "q(X,Y)")
+    if any("Z" in c for c in core) and not any(c.startswith("r(") for c in core):
+        core.append("r(Y,Z)")
+    if any("Y" in c for c in core) and not any(c.startswith("q(") or c.startswith("r(Y") for c in core):
+        core.append("q(X,Y)")
+    if not any(c.startswith(("q(X", "p(X", "r(X")) for c in core):
+        core.append("p(X)")
+    renamings = [{"X": "X", "Y": "Y", "Z": "Z"}, {"X": "A", "Y": "B", "Z": "C"}, {"X": "Y", "Y": "X", "Z": "W"}, {"X": "M", "Y": "N", "Z": "O"}]
+
+    def inst(lits: list[str], ren: dict) -> list[str]:
+        out = []
+        for lit in lits:
+            out.append("".join(ren.get(ch, ch) for ch in lit))
+        return out
+
+    stms = []
+    n = t.i(2, 3)
+    for i in range(n):
+        ren = renamings[i if t.p(70) else 0]
+        lits = inst(core, ren)
+        x, y = ren["X"], ren["Y"]
+        extra = t.one([[], [f"v({x})"], [f"not v({y})"], [f"{x} > 0"], ["w"], [f"t({x},T)"]])
+        body = lits + extra
+        if t.p(30):
+            body = body[1:] + body[:1]
+        place = t.i(0, 9)
+        has_cond = any(" : " in b for b in body)
+        sep = "; " if has_cond else ", "
+        if place < 4:
+            hv = t.one([x, y, f"{x},{y}", ""])
+            stms.append(f"h{i}({hv}) :- {sep.join(body)}." if hv else f"h{i} :- {sep.join(body)}.")
+        elif place < 5:
+            stms.append(f":- {sep.join(body)}.")
+        elif place < 7 and not has_cond:
+            stms.append(f"g{i}(S) :- S = #sum{{ {x},{y} : {', '.join(body)} }}.")
+            names.append("aggregate")
+        elif place < 8 and not has_cond:
+            stms.append(f"g{i} :- w, k({x}) : {', '.join(body)}.")
+            names.append("conditional")
+        elif place < 9:
+            stms.append(f":~ {sep.join(body)}. [{x}@1,{y}]")
+            names.append("objective")
+        else:
+            stms.append(f"{{ c{i}({x}) }} :- {sep.join(body)}.")
+    if t.p(25):
+        stms.append(t.one(["q(X,Y) :- r(X,Y), p(X).", "p(X) :- q(X,Y), not s(X).", "{ s(X) } :- p(X)."]))
+        names.append("recursive_or_choice")
+    return "\n".join(stms), "dup:" + "+".join(sorted(set(names)) or ["bodies"])
